@@ -289,16 +289,23 @@ def run_table(case):
     if tier == "quick":
         filters = filters[::3]
     c = sess.cq
-    for f in filters:
+    # the live subscription additionally carries a limit (absent, 0, 1, 5 in rotation; all four for the first filters): a limit bounds the
+    # stored answer only, it is not a matching condition
+    todo = []
+    for i, f in enumerate(filters):
+        for L in ((None, 0, 1, 5) if i < 12 else ((None, 0, 1, 5)[i % 4],)):
+            todo.append((f, L))
+    for f, L in todo:
         if R.on_boundary(f, ev):
             continue
+        lf = dict(f) if L is None else dict(f, limit=L)
         sess.reset()
         c = sess.cq
         if c.closed_by_relay is not None or c.task.done():
             sess.query([f])  # reconnects
             c = sess.cq
         n0 = len(c.transcript)
-        sess.w.send(c, json.dumps(["REQ", "live", f], ensure_ascii=False), sess.HORIZON)
+        sess.w.send(c, json.dumps(["REQ", "live", lf], ensure_ascii=False), sess.HORIZON)
         r = sess.submit(ev)
         live = 0
         for k, _, p in c.transcript[n0:]:
@@ -308,7 +315,7 @@ def run_table(case):
         ids, eose, notices, closed = sess.query_ids([f])
         stored = ids.count(ev["id"])
         n += 1
-        fk = Q.fkey([f])
+        fk = Q.fkey([lf])
         if (live > 0) != (stored > 0):
             viol.append({"case": cid, "clause": "live-matching-equals-stored-matching", "sig": "%s|%s" % (nm, fk),
                          "detail": "event %s: live pushes=%d, stored answers=%d for filter %s" % (nm, live, stored, fk)})
@@ -332,7 +339,8 @@ def coverage(tier, agg):
                 "handles, disconnect, un-stall of a slow subscriber, timers); oracle: interval semantics - a subscription is surely open from the "
                 "handler's progress mark after its REQ until the CLOSE / replacing REQ / disconnect is read, surely closed after the mark that follows; "
                 "an event is accepted between the read of its EVENT frame and its OK frame; table: for each of the 10 universe events x %s single "
-                "filters (bound-touching pairs skipped): live decision == stored decision. states/transitions = choice points visited (sched) / pairs (table)." % (
+                "filters (bound-touching pairs skipped; the live subscription also carries limit absent/0/1/5 in rotation): live decision == stored decision of the "
+                "filter without the limit. states/transitions = choice points visited (sched) / pairs (table)." % (
                     sorted(SCENARIOS), 1 if tier == "quick" else 2, "every third of the" if tier == "quick" else "all"),
         "backends": ["sql", "kv"],
     }
